@@ -98,15 +98,12 @@ func checkC02(p *core.Program, r *core.Report) {
 		c := core.Common(in)
 		return c != nil && (c.StaticCallee() == a.nch || c.StaticCallee() == nws)
 	}
-	skiCallsIn := func(fn *ssa.Function) []*ssa.Call {
-		var out []*ssa.Call
-		core.EachInstr(fn, func(in ssa.Instruction) {
-			if c, ok := in.(*ssa.Call); ok && c.Call.StaticCallee() == skiFn {
-				out = append(out, c)
-			}
-		})
-		return out
+	hubLocal := func(f *ssa.Function) bool { return p.PkgShort(f) == "hub" && f.Blocks != nil }
+	isSkiCall := func(in ssa.Instruction) bool {
+		c, ok := in.(*ssa.Call)
+		return ok && c.Call.StaticCallee() == skiFn
 	}
+	lift := func(e core.EdgeFilter) core.EdgeFilter { return core.LiftEdge(e, hubLocal, 2) }
 	// ---------- inbound
 	var reqParam ssa.Value
 	for _, pa := range serve.Params {
@@ -114,11 +111,13 @@ func checkC02(p *core.Program, r *core.Report) {
 			reqParam = pa
 		}
 	}
-	inSki := skiCallsIn(serve)
+	inSki := core.ExpandSites(serve, hubLocal, 2, isSkiCall)
 	if len(inSki) != 1 {
 		r.Fail(R1, "inbound SKI extraction", p.Pos(serve.Pos()), fmt.Sprintf("expected exactly one SkiFromCertificate call in the inbound handler, found %d", len(inSki)))
 	} else {
-		sc := inSki[0]
+		scSite := inSki[0]
+		sc := scSite.In.(*ssa.Call)
+		undo := scSite.Bind()
 		ok, base := firstPeerCert(sc.Call.Args[0])
 		fromReq := false
 		if ok {
@@ -127,13 +126,14 @@ func checkC02(p *core.Program, r *core.Report) {
 				fromReq = true
 			}
 		}
+		undo()
 		key := "inbound SKI taken from r.TLS.PeerCertificates[0]"
 		if ok && fromReq {
 			r.OK(R1, key, p.Pos(sc.Pos()), "the certificate whose key the peer proved possession of")
 		} else {
 			r.Fail(R1, key, p.Pos(sc.Pos()), "the inbound SKI is not extracted from the first peer certificate of this request's TLS state: only for that certificate possession of the key was proven; any other entry of the list is attacker-chosen data")
 		}
-		for _, s := range core.Sites([]*ssa.Function{serve}, isConstruct) {
+		for _, s := range core.ExpandSites(serve, hubLocal, 2, isConstruct) {
 			c := core.Common(s.In)
 			arg := c.Args[len(c.Args)-1]
 			name := "NewWebsocketConnection"
@@ -141,7 +141,10 @@ func checkC02(p *core.Program, r *core.Report) {
 				arg, name = c.Args[4], "NewConnectionHandler"
 			}
 			key := "inbound " + name + " SKI derives from the extracted SKI"
-			if derivesFromThroughHub(p, arg, sc, 12) {
+			undo := s.Bind()
+			der := derivesFromThroughHub(p, arg, sc, 12)
+			undo()
+			if der {
 				r.OK(R1, key, p.Pos(s.In.Pos()), "identity = SkiFromCertificate(peer cert)")
 			} else {
 				r.Fail(R1, key, p.Pos(s.In.Pos()), "the connection is created under a SKI that does not derive from the presented certificate")
@@ -158,7 +161,7 @@ func checkC02(p *core.Program, r *core.Report) {
 			}
 			for _, k := range chk {
 				key := "inbound " + name + " guarded " + k.name
-				if core.Guarded(s.In, k.e) {
+				if core.GuardedCtx(s, lift(k.e)) {
 					r.OK(R2, key, p.Pos(s.In.Pos()), "construction only on the pass edge")
 				} else {
 					r.Fail(R2, key, p.Pos(s.In.Pos()), "an inbound SHIP connection can be constructed "+k.msg)
@@ -171,14 +174,17 @@ func checkC02(p *core.Program, r *core.Report) {
 
 	// ---------- outbound
 	for _, d := range a.dialFns {
-		outSki := skiCallsIn(d)
+		outSki := core.ExpandSites(d, hubLocal, 2, isSkiCall)
 		key := "outbound SKI extraction in " + p.FnName(d)
 		if len(outSki) == 0 {
 			r.Fail(R1, key, p.Pos(d.Pos()), "the dial function never validates the server certificate's SKI")
 			continue
 		}
-		sc := outSki[0]
+		scSite := outSki[0]
+		sc := scSite.In.(*ssa.Call)
+		undoSc := scSite.Bind()
 		okc, _ := firstPeerCert(sc.Call.Args[0])
+		undoSc()
 		if okc {
 			r.OK(R1, key, p.Pos(sc.Pos()), "SkiFromCertificate(PeerCertificates[0])")
 		} else {
@@ -252,7 +258,7 @@ func checkC02(p *core.Program, r *core.Report) {
 			}
 			return (isDialled(bo.X) && isPresented(bo.Y)) || (isDialled(bo.Y) && isPresented(bo.X))
 		}
-		for _, s := range core.Sites([]*ssa.Function{d}, isConstruct) {
+		for _, s := range core.ExpandSites(d, hubLocal, 2, isConstruct) {
 			c := core.Common(s.In)
 			name := "NewWebsocketConnection"
 			arg := c.Args[len(c.Args)-1]
@@ -260,7 +266,11 @@ func checkC02(p *core.Program, r *core.Report) {
 				name, arg = "NewConnectionHandler", c.Args[4]
 			}
 			key := "outbound " + name + " SKI is the dialled service's"
-			if call, ok := core.Canon(arg).(*ssa.Call); ok && core.CallsMethodNamed(call, apiPath, "ServiceDetails", "SKI") && core.Canon(call.Call.Args[0]) == svc {
+			undo := s.Bind()
+			call, isCall := core.Canon(arg).(*ssa.Call)
+			dialled := isCall && core.CallsMethodNamed(call, apiPath, "ServiceDetails", "SKI") && core.Canon(call.Call.Args[0]) == svc
+			undo()
+			if dialled {
 				r.OK(R1, key, p.Pos(s.In.Pos()), "created under the dialled SKI, which was compared with the presented one")
 			} else {
 				r.Fail(R1, key, p.Pos(s.In.Pos()), "the outbound connection is not created under the dialled service's SKI")
@@ -276,7 +286,7 @@ func checkC02(p *core.Program, r *core.Report) {
 			}
 			for _, k := range chk {
 				key := "outbound " + name + " guarded " + k.name
-				if core.Guarded(s.In, k.e) {
+				if core.GuardedCtx(s, lift(k.e)) {
 					r.OK(R2, key, p.Pos(s.In.Pos()), "construction only on the pass edge")
 				} else {
 					r.Fail(R2, key, p.Pos(s.In.Pos()), "an outbound SHIP connection is constructed (and SHIP messages are sent) "+k.msg)
@@ -394,9 +404,15 @@ func checkRefusalsClose(p *core.Program, r *core.Report, rule string, fn *ssa.Fu
 		}
 		return false
 	}
-	constructs := func(in ssa.Instruction) bool {
+	mustConstruct := core.NewMust(p, 2, func(in ssa.Instruction) bool {
 		c := core.Common(in)
 		return c != nil && c.StaticCallee() == nch
+	})
+	constructs := func(in ssa.Instruction) bool {
+		if _, isCall := in.(*ssa.Call); !isCall {
+			return false
+		}
+		return mustConstruct.Instr(in)
 	}
 	last := conns[len(conns)-1]
 	call := last.(*ssa.Call)
